@@ -50,7 +50,10 @@ pub fn generate(out: &mut Out, prop: &str, thorough: bool, seed: u64) {
         "C10" => client::gen_c10(out, &mut rng, thorough),
         "C11" => stream::gen_c11(out, &mut rng, thorough),
         "C12" => client::gen_c12(out, &mut rng, thorough),
-        "C13" => client::gen_c13(out, &mut rng, thorough),
+        "C13" => {
+            client::gen_c13(out, &mut rng, thorough);
+            client::gen_c13_second_send(out, &mut rng, thorough)
+        }
         "C14" => {
             server::gen_c14(out, &mut rng, thorough);
             netgen::gen_c14_accept(out, &mut rng, thorough)
